@@ -17,7 +17,7 @@
 (* machine below and Trace_Convolution (records carry their own shapes)    *)
 (* use the same operators.  Mask operators come from Masks.tla.            *)
 (***************************************************************************)
-EXTENDS Integers, Sequences, FiniteSets, TLC, Json, SequencesExt, FiniteSetsExt
+EXTENDS Integers, Sequences, FiniteSets, TLC, Json, SequencesExt
 
 CONSTANTS Families,    \* set of <<H, W, kh, kw, r0, c0, rh, rw>>: frame, odd kernel shape, and a window
                        \* (top-left cell, size) inside which every non-empty mask is explored
@@ -36,8 +36,15 @@ CellOf(n, W) == M!CellOf(n, W)
 InFrame(c, H, W) == M!InFrame(c, H, W)
 RowMajor(H, W) == M!RowMajor(H, W)
 SlimSeq(u, H, W) == M!SlimSeq(u, H, W)
-Blurring(u, H, W, kh, kw) == M!Blurring(u, H, W, kh, kw)
 FootLeaves(u, H, W, kh, kw) == M!FootLeaves(u, H, W, kh, kw)
+
+\* The blurring region of a mask for an odd kernel: masked cells of the frame within the kernel footprint of an
+\* unmasked cell, in row-major order.  (Arithmetic form of Masks!Blurring, evaluated to an explicit sequence / set;
+\* theorem BlurringIsMasksBlurring states that both are the same set.)
+InFoot(c, p, kh, kw) == /\ c[1] - p[1] \in -(kh \div 2) .. (kh \div 2)
+                        /\ c[2] - p[2] \in -(kw \div 2) .. (kw \div 2)
+BlSeq(u, H, W, kh, kw) == SelectSeq(RowMajor(H, W), LAMBDA c : c \notin u /\ \E p \in u : InFoot(c, p, kh, kw))
+Blurring(u, H, W, kh, kw) == ToSet(BlSeq(u, H, W, kh, kw))
 
 Sum(s) == FoldLeft(LAMBDA a, b : a + b, 0, s)
 IsOdd(n) == n % 2 = 1
@@ -63,9 +70,6 @@ Full(img, K, H, W, kh, kw, t) ==
 
 \* whole-frame convolution (what Kernel2D.convolved_array_from computes on an unmasked array)
 WholeFrame(img, K, H, W, kh, kw) == [n \in 1 .. H*W |-> Full(img, K, H, W, kh, kw, CellOf(n-1, W))]
-
-\* blurring region in slim (row-major) order
-BlSeq(u, H, W, kh, kw) == LET B == Blurring(u, H, W, kh, kw) IN SelectSeq(RowMajor(H, W), LAMBDA c : c \in B)
 
 \* gather a native image onto a sequence of cells
 GatherOn(native, cells, W) == [k \in 1 .. Len(cells) |-> native[Lin(cells[k], W) + 1]]
@@ -142,9 +146,9 @@ FrameRow(frame, nOut) ==
     [v \in 1 .. nOut |-> Sum([e \in 1 .. Len(frame) |-> IF frame[e].idx = v - 1 THEN frame[e].kv ELSE 0])]
 
 \* scatter-accumulate: out[v] += value[k] * kernel entry, for every entry (v, kernel entry) of frame k
-Scatter(frames, values, nOut) ==
-    LET rows == [k \in 1 .. Len(frames) |-> FrameRow(frames[k], nOut)]
-    IN [v \in 1 .. nOut |-> Sum([k \in 1 .. Len(frames) |-> values[k] * rows[k][v]])]
+FrameRows(frames, nOut) == [k \in 1 .. Len(frames) |-> FrameRow(frames[k], nOut)]
+ApplyRows(rows, values, nOut) == [v \in 1 .. nOut |-> Sum([k \in 1 .. Len(rows) |-> values[k] * rows[k][v]])]
+Scatter(frames, values, nOut) == ApplyRows(FrameRows(frames, nOut), values, nOut)
 
 ConvolveByFrames(fr, img, blur, nOut) == AddSeq(Scatter(fr.img, img, nOut), Scatter(fr.blur, blur, nOut))
 
@@ -158,7 +162,9 @@ ScatterMatrix(frames, mat, nOut) ==
          IN [k \in 1 .. nOut |-> [p \in 1 .. P |-> cols[p][k]]]
 
 \* the operator realised by a list of frames, as a table (rows = sources): obtained by blurring basis vectors
-FramesOp(frames, nOut) == [a \in 1 .. Len(frames) |-> Scatter(frames, Unit(Len(frames), a), nOut)]
+FramesOp(frames, nOut) ==
+    LET rows == FrameRows(frames, nOut)
+    IN [a \in 1 .. Len(frames) |-> ApplyRows(rows, Unit(Len(frames), a), nOut)]
 
 -----------------------------------------------------------------------------
 (* Kernels and probe data of the bounded machine *)
@@ -245,16 +251,21 @@ EvenKernelRejected ==
 
 \* the operator table is the definition applied to basis images (image part and blurring part)
 OperatorTableIsDefinitionOnBasis ==
-    Seen => LET B == Blurring(U, HH, WW, KH, KW)
-                nu == Cardinality(U)
-                nb == Cardinality(B)
-                k == Kern
+    Seen => LET k  == Kern
+                us == SlimSeq(U, HH, WW)
+                bs == BlSeq(U, HH, WW, KH, KW)
                 oi == OpImage(U, k, HH, WW, KH, KW)
                 ob == OpBlur(U, k, HH, WW, KH, KW)
-                zu == Zeros(nu)
-                zb == Zeros(nb)
-            IN /\ \A a \in 1 .. nu : MaskedBlurB(U, B, k, HH, WW, KH, KW, Unit(nu, a), zb) = oi[a]
-               /\ \A a \in 1 .. nb : MaskedBlurB(U, B, k, HH, WW, KH, KW, zu, Unit(nb, a)) = ob[a]
+                unit(s) == [n \in 1 .. HH*WW |-> IF n = Lin(s, WW) + 1 THEN 1 ELSE 0]   \* native basis image
+                resp(s) == LET e == unit(s) IN [b \in 1 .. Len(us) |-> Full(e, k, HH, WW, KH, KW, us[b])]
+            IN /\ \A a \in 1 .. Len(us) : resp(us[a]) = oi[a]
+               /\ \A a \in 1 .. Len(bs) : resp(bs[a]) = ob[a]
+               \* and a basis vector of either kind combines to that native basis image
+               /\ \A a \in 1 .. Len(us) : Combine(U, ToSet(bs), HH, WW, Unit(Len(us), a), Zeros(Len(bs))) = unit(us[a])
+               /\ Len(bs) > 0 => Combine(U, ToSet(bs), HH, WW, Zeros(Len(us)), Unit(Len(bs), Len(bs))) = unit(bs[Len(bs)])
+
+\* the arithmetic blurring region used here is the blurring set of Masks.tla (C10)
+BlurringIsMasksBlurring == Built => Blurring(U, HH, WW, KH, KW) = M!Blurring(U, HH, WW, KH, KW)
 
 \* the frame tables (second formulation) realise exactly that operator
 FramesImplementDefinition ==
